@@ -92,7 +92,8 @@ func init() {
 	// ------------------------------------------------------------------ C12
 	register("C12", func(c *engine.Ctx) {
 		c.Rule = "random schemas (all features, titles, numeric-looking keys) x random option sets; each generated: three times in one process, from files whose objects have their keys in three different random orders, from a relocated directory, and (a sample) by the CLI binary in separate processes; all outputs must be byte-identical under the same names. Colliding names: sets of definition / property names that normalise to one identifier, with different content, generated 30 times in one process with shuffled key orders. Repeated branches: allOf / anyOf listing one definition twice next to a branch that disagrees on first-wins keywords, 30 generations each. Resolve-extension order: an extension-less reference with candidate files .json / .yaml / .yml of different content, three orders of the extension list: the first listed wins, 30 generations each. Mapping order: sets of 1..4 schema mappings whose ids are pairwise distinct but nearly equal to the schema's $id (trailing # or /, letter case, trailing space, prefix) in EVERY slice order (main.go takes the order from a map): identical outputs, equal to the model's route / rootOverride. Command line in separate processes: the extension-less reference with 2-3 --resolve-extension flags in six orders and spellings (first listed wins where it has its dot), and one invocation with three mapped ids, 13 processes each, byte-identical. Distinct = distinct (option set, schema shape)."
-		c.Proofs([]string{"GJS.Props.C12"}, []string{
+		c.Proofs([]string{"GJS.Props.C12", "GJS.Props.FlatOrder"}, []string{
+			"GJS.Props.Flat.key_order_unobservable", "GJS.Props.Flat.run_key_order",
 			"GJS.Props.C12.sortedKeys_perm", "GJS.Props.C12.alookup_perm", "GJS.Props.C12.visited_perm", "GJS.Props.C12.parseTypeList_order_free",
 			"GJS.Props.C12.route_perm", "GJS.Props.C12.rootOverride_perm", "GJS.Props.C12.route_exact",
 		})
@@ -676,7 +677,8 @@ func init() {
 	// ------------------------------------------------------------------ C16
 	register("C16", func(c *engine.Ctx) {
 		c.Rule = "random schemas (all features; titles up to 60 characters, enums of up to 12 members) x pairs of option sets differing in exactly one option: --only-models (same type declarations; no func, var, or import besides those types need), --tags (equal after erasing tags), --capitalization / --struct-name-from-title / --schema-root-type (equal after abstracting declared identifiers; --schema-root-type also at the command line: invocations with and without it for a referenced and for the main schema x other per-schema flags {none, package + output, output only, package only} x stdout / -o x one or both files as arguments), --extra-imports (equal after deleting the YAML methods and the yaml import; the JSON behaviour of the two compiled programs is the same on the documents). Distinct = distinct (option, schema shape)."
-		c.Proofs([]string{"GJS.Props.C16"}, []string{
+		c.Proofs([]string{"GJS.Props.C16", "GJS.Props.FlatGen"}, []string{
+			"GJS.Props.Flat.run_flat_gen", "GJS.Props.Flat.extra_imports_same_decls", "GJS.Props.Flat.only_models_keeps_type", "GJS.Props.Flat.root_type_changes_only_name", "GJS.Props.Flat.tags_change_only_tags",
 			"GJS.Props.C16.minSized_off_is_identity", "GJS.Props.C16.rootName_mapping_wins", "GJS.Props.C16.rootName_title_only_with_flag",
 			"GJS.Props.C16.rootType_flag_never_changes_routing", "GJS.Props.C16.rootType_alone_keeps_routing", "GJS.Props.C16.rootType_alone_sets_root", "GJS.Props.C16.package_without_output_is_external",
 			"GJS.Props.C16.tags_only_in_tag_text", "GJS.Props.C16.yaml_import_iff_extraImports", "GJS.Props.C16.onlyModels_enum_has_no_methods",
